@@ -1,1 +1,148 @@
-import Depccg.En
+/-
+  C03  English combinatory rules are sound.
+  Property theorems only; definitions and statements are in Depccg/Props/C03Defs.lean (unchanged),
+  helper lemmas (one soundness / completeness lemma per combinator) in Depccg/Proofs/C03Lemmas.lean.
+-/
+import Depccg.Props.C03Defs
+import Depccg.Proofs.C03Lemmas
+
+namespace Depccg.C03
+open Depccg Cat Str Unify
+
+/-- soundness: every result of the English grammar is justified by the schema its label names
+    (on the inputs with `nb` erased) -/
+theorem en_sound : EnSoundStatement := by
+  intro seen x y x' y' rs hx hy cx cy h r hr
+  obtain ⟨c, hc, hcr⟩ := applyBinary_mem cx cy h hr
+  exact comb_sound hc (allUnary_clear hx cx) (allUnary_clear hy cy) hcr
+
+/-- the head is always the left child -/
+theorem en_head_left : EnHeadLeftStatement := by
+  intro seen x y rs h r hr
+  obtain ⟨c, hc, hcr⟩ := applyBinary_mem (C14.clear_nb_eq x) (C14.clear_nb_eq y) h hr
+  exact (comb_label hc hcr).1
+
+/-- only the ten listed labels are ever emitted -/
+theorem en_labels_closed : EnLabelsClosedStatement := by
+  intro seen x y rs h r hr
+  obtain ⟨c, hc, hcr⟩ := applyBinary_mem (C14.clear_nb_eq x) (C14.clear_nb_eq y) h hr
+  exact (comb_label hc hcr).2.1
+
+/-- unary results are labelled `tr` or `lex`, with symbol `<un>` and the head on the left -/
+theorem en_unary_labels : EnUnaryLabelsStatement :=
+  unary_labels
+
+/-- features in a result come from the inputs, except for the two type-changing rules `<*>` -/
+theorem en_features_from_inputs : EnFeaturesFromInputsStatement := by
+  intro seen x y x' y' rs hx hy cx cy h r hr hsym f hf
+  exact Or.inr (justified_feats (en_sound seen x y x' y' rs hx hy cx cy h r hr) hsym f hf)
+
+/-- backward crossed composition never composes over a bare `N` or `NP` -/
+theorem en_bx_not_N_NP : EnBxNotNorNPStatement := by
+  intro seen x y x' y' rs _ _ cx cy h
+  constructor
+  · rintro a b c s1 s2 rfl rfl hb r hr hlab
+    obtain ⟨k, hk, hkr⟩ := applyBinary_mem cx cy h hr
+    have := (comb_label hk hkr).2.2.1 hlab
+    subst this
+    exact bx_guard hb r hkr
+  · rintro a b c d s1 s2 s3 rfl rfl hb r hr hlab
+    obtain ⟨k, hk, hkr⟩ := applyBinary_mem cx cy h hr
+    have := (comb_label hk hkr).2.2.2 hlab
+    subst this
+    exact gbx_guard hb r hkr
+
+/-- completeness: a schema whose premises hold with identical matched parts yields its result -/
+theorem en_complete : EnCompleteStatement := by
+  intro a b c d s3 ua ub uc ud na nb nc nd ba bb bc bd _
+  refine ⟨?_, ?_, ?_, ?_, ?_, ?_⟩
+  · exact applyBinary_complete (c := En.forwardApplication) (by simp [En.combinators])
+      ⟨ua, ub⟩ ub ⟨na, nb⟩ nb (noNb_fn _ ba bb) bb (fa_complete ua ub)
+  · intro hne
+    exact applyBinary_complete (c := En.backwardApplication) (by simp [En.combinators])
+      ub ⟨ua, ub⟩ nb ⟨na, nb⟩ bb (noNb_fn _ ba bb) (ba_complete ua ub hne)
+  · exact applyBinary_complete (c := En.forwardComposition) (by simp [En.combinators])
+      ⟨ua, ub⟩ ⟨ub, uc⟩ ⟨na, nb⟩ ⟨nb, nc⟩ (noNb_fn _ ba bb) (noNb_fn _ bb bc) (fc_complete ua ub uc)
+  · intro hn
+    exact applyBinary_complete (c := En.backwardComposition) (by simp [En.combinators])
+      ⟨ub, uc⟩ ⟨ua, ub⟩ ⟨nb, nc⟩ ⟨na, nb⟩ (noNb_fn _ bb bc) (noNb_fn _ ba bb) (bx_complete ua ub uc hn)
+  · exact applyBinary_complete (c := En.generalizedForwardComposition) (by simp [En.combinators])
+      ⟨ua, ub⟩ ⟨⟨ub, uc⟩, ud⟩ ⟨na, nb⟩ ⟨⟨nb, nc⟩, nd⟩ (noNb_fn _ ba bb)
+      (noNb_fn _ (noNb_fn _ bb bc) bd) (gfc_complete s3 ua ub uc ud)
+  · intro hn
+    exact applyBinary_complete (c := En.generalizedBackwardComposition) (by simp [En.combinators])
+      ⟨⟨ub, uc⟩, ud⟩ ⟨ua, ub⟩ ⟨⟨nb, nc⟩, nd⟩ ⟨na, nb⟩ (noNb_fn _ (noNb_fn _ bb bc) bd)
+      (noNb_fn _ ba bb) (gbx_complete s3 ua ub uc ud hn)
+
+/-! ### non-vacuity -/
+
+section Examples
+
+private def at' (b : String) (f : Option String) : Cat := .atom (lit b) (.un (f.map lit))
+private def exNP : Cat := at' "NP" none
+private def exPP : Cat := at' "PP" none
+private def exS : Cat := at' "S" none
+private def exSdcl : Cat := at' "S" (some "dcl")
+/-- `S[dcl]\NP` -/
+private def exVP : Cat := .fn exSdcl cBSlash exNP
+
+/-- the hypotheses of `en_sound` are met by `NP` , `S[dcl]\NP` … -/
+example : C14.AllUnary exNP ∧ C14.AllUnary exVP := ⟨trivial, trivial, trivial⟩
+example : Cat.clear C14.nb exNP = .ok exNP ∧ Cat.clear C14.nb exVP = .ok exVP := by decide +kernel
+
+/-- … backward application fires on them … -/
+example : En.applyBinary none exNP exVP = .ok [lab "ba" "<" exSdcl] := by decide +kernel
+
+/-- … and `en_sound` yields the justification of that result: the schema `Y  X\Y ⇒ X` -/
+example : Justified exNP exVP (lab "ba" "<" exSdcl) :=
+  en_sound none exNP exVP exNP exVP [lab "ba" "<" exSdcl] trivial ⟨trivial, trivial⟩
+    (by decide +kernel) (by decide +kernel) (by decide +kernel) _ List.mem_cons_self
+
+/-- the same justification built by hand, with the `ba` constructor -/
+example : Justified exNP exVP (lab "ba" "<" exSdcl) :=
+  Justified.ba exSdcl exNP exSdcl cBSlash rfl (Or.inl rfl) ⟨by decide, by simp [C06.AllCompat, C06.feats, C06.Compat, exNP, at']⟩
+    (by decide) (by simp [Inst, C06.InstanceOf, exSdcl, at'])
+
+/-- a variable feature instantiated from the argument: `S[X]/NP[X]` applied to `NP[mod]` gives
+    `S[mod]`, and the feature of the result is a feature of the inputs -/
+example : En.applyBinary none (.fn (at' "S" (some "X")) cSlash (at' "NP" (some "X"))) (at' "NP" (some "mod"))
+    = .ok [lab "fa" ">" (at' "S" (some "mod"))] := by decide +kernel
+
+/-- a pair firing `bx`: `PP/NP` , `S\PP` ⇒ `S/NP` -/
+example : En.applyBinary none (.fn exPP cSlash exNP) (.fn exS cBSlash exPP) =
+    .ok [lab "bx" "<B" (.fn exS cSlash exNP)] := by decide +kernel
+
+/-- a pair firing `gbx`: `(PP/NP)\NP` , `S/PP` ⇒ `(S/NP)\NP` -/
+example : En.applyBinary none (.fn (.fn exPP cSlash exNP) cBSlash exNP) (.fn exS cSlash exPP) =
+    .ok [lab "gbx" "<B" (.fn (.fn exS cSlash exNP) cBSlash exNP)] := by decide +kernel
+
+/-- … which is what `en_complete` predicts (its hypotheses hold for `a = S`, `b = PP`, `c = d = NP`) -/
+example : ∃ rs, En.applyBinary none (.fn (.fn exPP cSlash exNP) cBSlash exNP) (.fn exS cSlash exPP) = .ok rs ∧
+    lab "gbx" "<B" (if exS = exPP then .fn (.fn exPP cSlash exNP) cBSlash exNP
+      else .fn (.fn exS cSlash exNP) cBSlash exNP) ∈ rs :=
+  (en_complete exS exPP exNP exNP cBSlash trivial trivial trivial trivial
+    (by decide : lit "S" ≠ []) (by decide : lit "PP" ≠ []) (by decide : lit "NP" ≠ [])
+    (by decide : lit "NP" ≠ [])
+    (by intro f hf; simp [C06.feats, exS, at'] at hf; subst hf; decide)
+    (by intro f hf; simp [C06.feats, exPP, at'] at hf; subst hf; decide)
+    (by intro f hf; simp [C06.feats, exNP, at'] at hf; subst hf; decide)
+    (by intro f hf; simp [C06.feats, exNP, at'] at hf; subst hf; decide)
+    (by decide)).2.2.2.2.2 (by rintro (h | h) <;> revert h <;> decide)
+
+/-- the guard: over a bare `NP` nothing is composed — `NP/PP` , `S\NP` gives no result at all -/
+example : BareNorNP exNP := Or.inr (by decide)
+example : En.applyBinary none (.fn exNP cSlash exPP) (.fn exS cBSlash exNP) = .ok [] := by decide +kernel
+
+/-- the two `<*>` rules are the exception in `en_features_from_inputs`: `,` with `S[ng]\NP` -/
+example : En.applyBinary none (at' "," none) (.fn (at' "S" (some "ng")) cBSlash exNP) =
+    .ok [lab "conj" "<Φ>" (.fn (.fn (at' "S" (some "ng")) cBSlash exNP) cBSlash (.fn (at' "S" (some "ng")) cBSlash exNP)),
+         lab "lp" "<lp>" (.fn (at' "S" (some "ng")) cBSlash exNP),
+         lab "lp" "<*>" (.fn En.sNP cBSlash En.sNP)] := by decide +kernel
+
+/-- unary rules: `NP ⇒ S/(S\NP)` is labelled `tr` -/
+example : En.applyUnary [(exNP, [.fn exS cSlash (.fn exS cBSlash exNP)])] exNP =
+    [⟨.fn exS cSlash (.fn exS cBSlash exNP), lit "tr", lit "<un>", true⟩] := by decide +kernel
+
+end Examples
+
+end Depccg.C03
